@@ -20,7 +20,7 @@ RULE = ("Hypothesis programs (1-3 files, optional include) with 0-3 faults plant
         "Non-trivial: >= 1 planted fault or >= 1 enabled warning that fires; distinct = (program, configuration).") % (len(mutate.FAULTS), len(mutate.WARNINGS))
 ASSUMPTIONS = ["severity of each catalogued kind (E/C/W) as calibrated in vf/mutate.py", "a forked child calling main_cli shows the exit status a shell sees"]
 
-HOST = ["\tmov #1, r0", "\tnop", "\t.word 1, 2, 3", "hq§:\tclr (r1)+", "\tbr .+2", "kq§ = 12", "\tmov #kq§, r1", "\t.blkw 2", "; comment", "\tadd r1, r2"]
+HOST = ["\tmov #1, r0", "\tnop", "\t.word 1, 2, 3", "hq§:\tclr (r1)+", "d.q§:\tnop\ndc.q§ = 7\n\tmov #dc.q§, @#d.q§", "\tbr .+2", "kq§ = 12", "\tmov #kq§, r1", "\t.blkw 2", "; comment", "\tadd r1, r2"]
 W_NAMES = ["all", "default", "no-all", "no-default", "implicit-operand", "no-implicit-operand", "suspicious-name", "excess-quote", "missing-newline", "meta-typo",
            "legacy-deferred", "implicit-index", "label-fixup", "no-label-fixup", "excess-hash", "no-excess-hash", "not-implemented", "no-not-implemented", "foo", "no-bar",
            "implicit-accumulator"]
@@ -91,8 +91,10 @@ def c07_case(draw):
             last += "\n\t.word"
             planted.append("word-without-operand")
         files[-1] = last
+    # one of the files named on the command line cannot be read (it is not the last one): the build must fail as a whole
+    bad_input = draw(st.sampled_from([None] * 12 + ["missing", "not-utf8"]))
     return {"kind": "c07", "files": files, "nmain": nfiles, "include": use_include, "planted": planted, "outputs": outputs, "lst": lst, "configs": configs,
-            "io_fault": io_fault}
+            "io_fault": io_fault, "bad_input": bad_input}
 
 
 def build(c):
@@ -106,6 +108,11 @@ def build(c):
         tree["lib/inc.mac"] = c["files"][c["nmain"]]
         tree[mains[0]] = tree[mains[0]] + ("" if tree[mains[0]].endswith("\n") else "\n") + "\t.even\n\t.include \"lib/inc.mac\"\n"
     argv = list(mains)
+    if c.get("bad_input") == "missing":
+        argv.insert(0, "nosuch.mac")
+    elif c.get("bad_input") == "not-utf8":
+        tree["koi.mac"] = "\tnop ; комментарий\n".encode("koi8-r")
+        argv.insert(0, "koi.mac")
     expected = {}     # rel path -> format
     directives = ""
     for o in c["outputs"]:
@@ -161,7 +168,7 @@ def printed_error(res, fmt):
 def judge(c):
     tree, mains, argv0, expected, any_output = build(c)
     sev = [mutate.BY_KIND[k].sev for k in c["planted"]]
-    must_fail = any(s in ("E", "C") for s in sev) or bool(c.get("io_fault"))
+    must_fail = any(s in ("E", "C") for s in sev) or bool(c.get("io_fault")) or bool(c.get("bad_input"))
     results = []
     fails = []
     info = {"status": None, "fired_warning": False}
@@ -191,6 +198,8 @@ def judge(c):
                               f"{(res.stdout + res.stderr).decode('utf-8', 'replace')[-500:]}"))
             # (2) observation iff
             pe = printed_error(res, conf["format"])
+            if c.get("bad_input"):
+                pe = pe or b"Could not read source file" in res.stderr or b"is not in UTF-8" in res.stderr
             if (res.status != 0) != pe and not fails:
                 fails.append(("status-vs-diagnostics", f"{tag}: exit status {res.status} but {'an' if pe else 'no'} error diagnostic was printed\n"
                               f"{(res.stdout + res.stderr).decode('utf-8', 'replace')[-500:]}"))
@@ -256,7 +265,7 @@ def run_shard(spec, ctx):
         fails, info = judge(c)
         sev = [mutate.BY_KIND[k].sev for k in c["planted"]]
         labels = [f"faults-{len(c['planted'])}", "status-" + str(info["status"]), f"files-{c['nmain']}", "include" if c["include"] else "no-include",
-                  "lst" if c["lst"] else "no-lst", f"outputs-{len(c['outputs'])}"] + ["sev-" + s for s in sorted(set(sev))] + (["io-fault"] if c.get("io_fault") else [])
+                  "lst" if c["lst"] else "no-lst", f"outputs-{len(c['outputs'])}"] + ["sev-" + s for s in sorted(set(sev))] + (["io-fault"] if c.get("io_fault") else []) + (["unreadable-input-" + c["bad_input"]] if c.get("bad_input") else [])
         labels += ["kind:" + k for k in c["planted"]]
         nt = bool(c["planted"]) or info["fired_warning"]
         ctx.case(repr(c), nt, labels, sample={"planted": c["planted"], "outputs": c["outputs"], "configs": c["configs"][:2], "p0": c["files"][0][:300]} if ctx.evaluations % 120 == 8 else None,
